@@ -289,7 +289,7 @@ def scan_operands(text):
     for m in ALIAS_RE.finditer(text):
         o = Operand()
         o.spelling = m.group(0)
-        o.kind = "pc" if m.group(1) == "PC" else "alias"
+        o.kind = "pc" if m.group(1) == "PC" and m.group(2) is None else "alias"  # PC_NEW is the pending value of the register, not the packet address
         o.cls = None
         o.letter = None
         o.pair = False
